@@ -313,7 +313,17 @@ impl UpdateTrailingTrivia for FunctionBody {
         Raw(GFOR, module="formatters::stmt"),
         Fn(TU, "spans_multiple_lines", mode="stub", sig_edits=[Hole("<T: std::fmt::Display>", "<T>", kind="proxy", why="std::fmt::Display bound dropped on the stub")]),
         Fn(TU, "prepend_newline_indent", mode="stub", contract="ensures node.same_sem(&r),"),
-        Fn(STM, "hug_generic_for", mode="stub"),
+        Raw("""
+pub assume_specification<T> [Punctuated::<T>::len] (p: &Punctuated<T>) -> (r: usize) ensures r == ppairs(*p).len();
+#[verifier::external_body] pub fn vx_first_value(p: &Punctuated<Expression>) -> (r: Option<&Expression>)
+    ensures (r is Some) == (ppairs(*p).len() > 0) { unimplemented!() /* p.iter().next() */ }
+""", module="formatters::stmt"),
+        Fn(STM, "hug_generic_for", contract="""
+    // total (C07): the `unwrap()` of the first expression is an obligation (the list holds exactly one item there)
+""", edits=[
+            Hole("expressions.iter().next()", "vx_first_value(expressions)", kind="wrapper", why="Punctuated::iter().next(): the first value, present iff the list is not empty"),
+            Between("match expression {\n        // Ensure is function call", "        _ => false,\n    }", "hole_bool()", why="nested patterns over the call's suffixes and arguments through two iterators: a layout decision (is the one expression a call with a single table argument)"),
+        ]),
         Fn(STM, "format_generic_for", contract="""
     requires exprs_wf(n_gfor_expressions(generic_for)),
     ensures census(&n_gfor_block(&r)) == census(&n_gfor_block(generic_for)), //# C02.generic_for_keeps_statements
